@@ -153,6 +153,8 @@ FIRST.update({  # rounds 12 and 13
  "C18h": ("detected (the clause legacy_rate_defined_beyond_full_utilization was added from the change's description before its first run; the judgement on [0, 1] alone would have missed it, Curve.tla reported it as drift)", "C18: a legacy curve has to be defined on (100 %, 200 %] as well"),
  "C13k": ("missed", "kill driver (harness/src/drv2.rs): a bank wiped out by bad debt, then every operational state asked for alone and in every order of two (a detour through paused or reduce-only), with deposit / borrow probes; Bkr.tla got the configure_bank{operational_state} action (no kill is reachable in its world, so the dead-bank refusals come from the driver)"),
  "C05k": ("missed", "RiskCfg / RecvO feed variant: a drop with the spot confidence at the 5 % cap while the time-weighted price lies well above spot (the cap is 5 % of the price it is applied to), followed by liquidation attempts / brackets"),
+ "C06k": ("missed", "zerorate driver (harness/src/drv2.rs, C06): curves whose base rate is zero over a stretch of utilization on banks charging fixed and rate fees; borrow to a utilization inside / at the end of / beyond the stretch, let time pass, accrue, collect"),
+ "C16m": ("not reported: the change cannot manifest through the program", "the change lets can_be_closed() accept an account flagged as in receivership, but that flag exists only inside a transaction whose start_liquidation / start_deleverage validated the whole instruction list, and the list may contain no marginfi instruction other than init_liquidation_record, withdraw, repay, kamino_withdraw, drift_withdraw and the matching end (liquidate_start.rs: validate_instructions); a transaction containing marginfi_account_close is refused at the start, before the flag is ever set - on the changed program too. At the level the property speaks about (what instructions do) the changed program behaves like the unchanged one; only the unit test of the helper tells them apart. Kept for the record; no check was loosened or strengthened for it"),
  "C11j": ("missed", "TxShape Flash6 instance: flash-loan brackets on an account without any position (its end instruction is sent without bank / price accounts)"),
 })
 for d in sorted(os.listdir(os.path.join(ROOT, "seeded"))):
